@@ -86,6 +86,11 @@ func (e *c17ex) prepare(i int, spec string) (*c17inv, bool) {
 		inv.ids = []string{inv.txid, id}
 	case "done":
 		inv.creator, inv.fn, inv.args = wd.Client.Creator, "swapDone", []string{"00ff" + strconv.Itoa(i), "nokey"}
+	case "init":
+		// a re-initialisation proposal with ANOTHER configuration (symbol ZZ, swaps disabled), only
+		// simulated: the invocations in flight keep the configuration they loaded
+		inv.creator, inv.fn = wd.Admin.Creator, "\x00init"
+		inv.args = []string{wd.ConfigJSON("ZZ", world.Options{DisableSwaps: true, DisableMultiSwaps: true})}
 	default:
 		return nil, false
 	}
@@ -105,6 +110,9 @@ func observe(inv *c17inv, r *simpeer.Result) string {
 			return "done-ok"
 		}
 		return "done-err"
+	}
+	if inv.kind == "init" {
+		return "init"
 	}
 	if !r.OK() {
 		return "err"
@@ -152,6 +160,14 @@ func observe(inv *c17inv, r *simpeer.Result) string {
 	}
 	sort.Strings(ws)
 	return "reads=" + strings.Join(reads, ",") + ";w=" + strings.Join(ws, ",")
+}
+
+// sim simulates one invocation (nothing is committed): Invoke, or Init for the kind "init"
+func (e *c17ex) sim(inv *c17inv) *simpeer.Result {
+	if inv.kind == "init" {
+		return e.c.SimInit(inv.creator, inv.txid, inv.args...)
+	}
+	return e.c.Simulate(inv.creator, inv.txid, inv.fn, inv.args...)
 }
 
 func isHex(s string) bool {
@@ -226,7 +242,7 @@ func (e *c17ex) Exec(op string) string {
 			// (with a limit: an invocation that waits for something another, abandoned invocation
 			// holds must not stop the harness)
 			ch := make(chan *simpeer.Result, 1)
-			go func(inv *c17inv) { ch <- e.c.Simulate(inv.creator, inv.txid, inv.fn, inv.args...) }(inv)
+			go func(inv *c17inv) { ch <- e.sim(inv) }(inv)
 			select {
 			case solo[i] = <-ch:
 			case <-time.After(3 * time.Second):
@@ -279,7 +295,7 @@ func (e *c17ex) Exec(op string) string {
 				mu.Lock()
 				idx[curGoid()] = i
 				mu.Unlock()
-				results[i] = e.c.Simulate(inv.creator, inv.txid, inv.fn, inv.args...)
+				results[i] = e.sim(inv)
 				mu.Lock()
 				delete(idx, curGoid())
 				mu.Unlock()
@@ -388,6 +404,16 @@ func genC17(c *Cfg, emit func([]string)) {
 			add(fmt.Sprintf("conc %s q=%s q=%s", sch, sc, sc))
 		}
 	}
+	// (a'') a re-initialisation with another configuration simulated while invocations are in flight:
+	// they keep the configuration they loaded (symbol VT)
+	for _, ka := range kinds {
+		for _, sc := range []string{"sym+sym", "sym+put:k1:a", "get:k1+sym"} {
+			for _, sch := range []string{"0", "00", "01", "10", "001", "010"} {
+				add(fmt.Sprintf("conc %s %s=%s init=-", sch, ka, sc))
+			}
+			add(fmt.Sprintf("conc 0102 %s=%s init=- %s=%s", ka, sc, kinds[(len(sc)+1)%len(kinds)], sc))
+		}
+	}
 	// (b) with a swap completion (installs and removes its context without switch points) in between
 	for _, ka := range kinds {
 		for _, sch := range []string{"0", "01", "010", "100", "001"} {
@@ -441,6 +467,6 @@ func genC17(c *Cfg, emit func([]string)) {
 		}
 	}
 	c.Exhaustive = true
-	c.Rule = fmt.Sprintf("%d concurrent runs on one chaincode instance: (a) two invocations, every pair of kinds {immediate method, batchExecute, executeTasks, query} x scripted bodies of two operations each (state put/get, event, or reporting the context's transaction id), ALL %d interleavings of their switch points (one immediately before every GetStub()); (b) a swap completion running in between; (c) three invocations under schedules of 2+2+2 switch points (%s); (d) bodies of four operations under sampled schedules; (e) every pair of kinds under all schedules again on an aged process (goroutine ids beyond 10^6, thorough 10^7). Each invocation runs on its own goroutine with its own simulated transaction; reply, write-set and event are compared with the same invocation run alone. non-trivial = every concurrent run; distinct = sha256", count, len(interleave([]int{2, 2})), map[bool]string{true: "all 90, six kind/body assignments each", false: "60 sampled"}[c.Thorough()])
+	c.Rule = fmt.Sprintf("%d concurrent runs on one chaincode instance: (a) two invocations, every pair of kinds {immediate method, batchExecute, executeTasks, query} x scripted bodies of two operations each (state put/get, event, or reporting the context's transaction id), ALL %d interleavings of their switch points (one immediately before every GetStub()); (a'') a re-initialisation proposal with another configuration simulated in between (bodies report the configuration in force); (b) a swap completion running in between; (c) three invocations under schedules of 2+2+2 switch points (%s); (d) bodies of four operations under sampled schedules; (e) every pair of kinds under all schedules again on an aged process (goroutine ids beyond 10^6, thorough 10^7). Each invocation runs on its own goroutine with its own simulated transaction; reply, write-set and event are compared with the same invocation run alone. non-trivial = every concurrent run; distinct = sha256", count, len(interleave([]int{2, 2})), map[bool]string{true: "all 90, six kind/body assignments each", false: "60 sampled"}[c.Thorough()])
 	c.Extra = map[string]any{"concurrent_runs": count}
 }
